@@ -173,6 +173,16 @@ class Runner:
         with open(os.path.join(rdir, "failed_checks.json"), "w") as fh:
             json.dump({"harness": h.full, "variant": h.variant, "failed": r["failed"], "repo": overlay.repo_identity(),
                        "cmd": r.get("cmd")}, fh, indent=1)
+        # extracting concrete values means a second solver run of the same cost; in the quick tier that is only done
+        # for harnesses cheap enough to keep the whole check inside its time budget. The violation itself is decided
+        # by the first run (failed checks of the compiled code); without the second run the report is "trace only".
+        cap = float(os.environ.get("VERIF_REPLAY_CAP", "200" if self.tier == "quick" else "3600"))
+        if (r.get("wall_s") or 0) > cap:
+            with open(os.path.join(rdir, "NOTE.txt"), "w") as fh:
+                fh.write("The failing run took %.0f s; concrete-value extraction (a second solver run) was skipped in this tier\n"
+                         "(VERIF_REPLAY_CAP=%.0f s). Re-run `./vcheck %s --tier thorough --only %s` for the concrete playback test.\n"
+                         % (r.get("wall_s") or 0, cap, self.prop, h.fn))
+            return rdir, None
         tdir = self.worker_target(h.variant, 0)
         rr = kani.run_harness(v["repo"], tdir, h, self.logdir, tag=".playback",
                               extra_args=["-Z", "concrete-playback", "--concrete-playback=print"],
@@ -282,7 +292,7 @@ def main(argv):
     ap.add_argument("prop", nargs="?")
     ap.add_argument("--tier", default=os.environ.get("VERIF_TIER", "quick"))
     ap.add_argument("--only", default=None)
-    ap.add_argument("--jobs", type=int, default=int(os.environ.get("VERIF_JOBS", "8")))
+    ap.add_argument("--jobs", type=int, default=int(os.environ.get("VERIF_JOBS", "14")))
     ap.add_argument("--keep", action="store_true")
     ap.add_argument("--list", action="store_true")
     ap.add_argument("--replay", default=None)
